@@ -1156,9 +1156,23 @@ class Engine:
 
     def s_IfStmt(self, n, st):
         kids = list(n.c)
-        init = None
         if n.get('hasInit'):
+            # `if (init; cond)`: the init statement runs first, its declarations are in scope for both branches
             init = kids.pop(0)
+            outs = []
+            st.push()
+            for s, o in self.ex(init, st):
+                if o is not NORMAL:
+                    outs.append((s, o))
+                    continue
+                for s2, o2 in self.if_core(n, kids, s):
+                    s2.pop() if o2 is NORMAL else None
+                    outs.append((s2, o2))
+            return outs
+        return self.if_core(n, kids, st)
+
+    def if_core(self, n, kids, st):
+        kids = list(kids)
         if n.get('hasVar'):
             var = kids.pop(0)
             # `if (T x = expr)`: declare then test x
